@@ -8,6 +8,7 @@ from .rules.purity import rule_pure, rule_args, rule_global, rule_memo
 from .rules.token import rule_token
 from .rules.graph import rule_keys, rule_order, rule_cover
 from .rules import misc as M
+from .rules.lazyrule import rule_lazy
 
 PROPERTIES = {
     "C01": {
@@ -26,6 +27,15 @@ PROPERTIES = {
                       "fills (0, 0.0, False) cannot be confused with 'not given'; the validity counter that implements min_count extends "
                       "every parallel tuple. Slot order, mask placement per plan and min_count arithmetic are not decided.",
         "explanation": "R-TRUTHY over every boolean context of every function; R-PARALLEL over the min_count branch",
+    },
+    "C12": {
+        "rules": [rule_lazy],
+        "technique": "predicate abstraction over dask-ness atoms on the CFG (bitset valuations, no solver) with function summaries",
+        "level_text": "Static, all-paths: on every path of the API entry points (and of every function they call while building a "
+                      "graph) no materialising primitive (np.asarray, pandas constructors, .compute/.item/.values, iteration, truth value of "
+                      "data-derived results) is applied to a value that may still be chunked under the path's guards. Decides the first "
+                      "sentence of the property for non-object dtypes; the label-to-value mapping of labels found at compute time is not decided.",
+        "explanation": "R-LAZY",
     },
     "C13": {
         "rules": [rule_pure],
@@ -165,4 +175,4 @@ NOT_APPLICABLE = {
 
 # properties whose rules are designed (DESIGN.md §3) but not built yet: not claimed until they are
 PENDING = {p: "static rules designed in DESIGN.md but not built yet in this revision; not claimed"
-           for p in ["C12"]}
+           for p in []}
